@@ -138,6 +138,27 @@ func checkC17(w *World, r *Recorder) propInfo {
 				bad = true
 			}
 		}
+		// X5: no object handed to a caller (or stored into one of the caller's
+		// objects) may reference mutable package-level memory: two callers'
+		// "private" objects would share it. Immutable shared values are exempt
+		// by type (sentinel errors, codec modes, compiled patterns, functions:
+		// X4 shows they are written only by the initialiser).
+		for _, site := range ef.LeakSites {
+			var gs []string
+			for _, g := range site.Prov.sharedGlobals() {
+				if !immutableSharedType(g.Type().(*types.Pointer).Elem()) {
+					gs = append(gs, g.Name())
+				}
+			}
+			if len(gs) == 0 || leakIntoGlobal(site) {
+				continue
+			}
+			if st, ok := site.Instr.(*ssa.Store); ok && immutableSharedType(st.Val.Type()) {
+				continue
+			}
+			r.Refute("C17-X5", fnKey(fn)+"#"+site.What+":"+strings.Join(gs, ","), w.InstrPos(site.Instr), fmt.Sprintf("%s stores a value that references package-level memory %v into an object of its caller: objects of different callers end up sharing that memory, so operations on distinct objects are no longer independent", fnKey(fn), gs))
+			bad = true
+		}
 		if ef.Spawns {
 			r.Refute("C17-X3", fnKey(fn)+"#go", w.FnPos(fn), "spawns a goroutine")
 			bad = true
@@ -156,6 +177,28 @@ func checkC17(w *World, r *Recorder) propInfo {
 		}
 		if !bad {
 			r.Prove("C17-X1", fnKey(fn), w.FnPos(fn), "no write to package-level memory", true)
+		}
+	}
+	// X5 (results): no API entry point returns mutable package-level memory
+	for _, a := range api {
+		ef := eff[a.fn]
+		if ef == nil {
+			continue
+		}
+		res := a.fn.Signature.Results()
+		for i := 0; i < res.Len() && i < len(ef.RetProv); i++ {
+			if immutableSharedType(res.At(i).Type()) {
+				continue
+			}
+			var gs []string
+			for _, g := range ef.RetProv[i].sharedGlobals() {
+				if !immutableSharedType(g.Type().(*types.Pointer).Elem()) {
+					gs = append(gs, g.Name())
+				}
+			}
+			if len(gs) > 0 {
+				r.Refute("C17-X5", fmt.Sprintf("%s#result%d:%s", a.name, i, strings.Join(gs, ",")), w.FnPos(a.fn), fmt.Sprintf("%s returns a value that references package-level memory %v: callers on different goroutines receive objects that share it", a.name, gs))
+			}
 		}
 	}
 	// X2
@@ -415,6 +458,18 @@ func checkC18(w *World, r *Recorder) propInfo {
 	if w.Whole {
 		c18CoseVerify(w, r)
 	}
+	// M4: what the encoders and signers hand out is fresh memory: using the
+	// library again cannot change an encoding or token obtained earlier
+	for _, n := range []string{"EncodeClaimsToCBOR", "ValidateAndEncodeClaimsToCBOR", "EncodeClaimsToJSON", "ValidateAndEncodeClaimsToJSON"} {
+		if fn := w.Root.Func(n); fn != nil {
+			ruleResultFresh(w, r, "C18-M4", fn, n, 0)
+		}
+	}
+	for _, n := range []string{"Sign", "ValidateAndSign", "MarshalJSON"} {
+		if fn := w.findFunc("Evidence", n); fn != nil {
+			ruleResultFresh(w, r, "C18-M4", fn, "Evidence."+n, 0)
+		}
+	}
 	r.Floor("C18-M1", 45)
 	r.Floor("C18-M2", 15)
 	r.Floor("C18-M3", 50)
@@ -451,4 +506,27 @@ func c18CoseVerify(w *World, r *Recorder) {
 		return
 	}
 	r.Undecide("C18-M1d", "go-cose Sign1Message.Verify", "-", "dependency function not found in the whole-program load")
+}
+
+// immutableSharedType: values of this type may be shared between goroutines
+// and objects without harm: errors (sentinels), the codec modes, compiled
+// patterns, function values, and types that cannot reference memory.
+func immutableSharedType(t types.Type) bool {
+	if !pointerLike(t) {
+		return true
+	}
+	ts := t.String()
+	if isErrorType(t) || ts == pCBOR+".EncMode" || ts == pCBOR+".DecMode" || strings.Contains(ts, "regexp.Regexp") {
+		return true
+	}
+	if _, isSig := t.Underlying().(*types.Signature); isSig {
+		return true
+	}
+	return false
+}
+
+// leakIntoGlobal: the store's target is itself package-level memory (the
+// registration function filling the register): not an object of a caller.
+func leakIntoGlobal(site WriteSite) bool {
+	return len(site.Target.Globals) > 0 && site.Target.Params == 0 && !site.Target.Unknown
 }
